@@ -12,6 +12,7 @@ package main
 
 import (
 	"fmt"
+	"go/types"
 	"os"
 	"strings"
 )
@@ -560,10 +561,15 @@ func (r *rwRT) switchBreaksRewritten(in *Interp, o Outcome, shp *astInput) error
 	}
 	if cb == nil {
 		// ... or by a hand-written recursive walk of the package's own: judged on concrete trees
+		var bodyList AV
+		if bo := o.St.Obj(unwrap(body)); bo != nil {
+			bodyList = bo.Fields["List"]
+		}
 		for _, e := range o.St.Events[:firstLower] {
 			if e.Kind == "call" && e.Fn != nil && inRw(e.Fn) && isRecursiveAstWalk(e.Fn) {
 				for _, a := range e.Args {
-					if sameAV(unwrap(a), unwrap(body)) {
+					// the walk is given the body, or its clause list
+					if sameAV(unwrap(a), unwrap(body)) || bodyList != nil && sameAV(unwrap(a), unwrap(bodyList)) {
 						return r.switchBreakWalk(bodyOf(e.Fn))
 					}
 				}
@@ -711,9 +717,15 @@ func (r *rwRT) switchBreakWalk(fn *ssaFunction) error {
 		bodyRef, body := r.heapNode(st, "BlockStmt", map[string]AV{"List": arr(st, clause)})
 		in := r.interp(rwConfig{root: fn, inlineAll: true})
 		in.MaxRecur, in.MaxDepth, in.MaxVisits = 12, 30, 8
-		args := []AV{body}
+		var arg AV = body
+		if p := fn.Signature.Params(); p.Len() == 1 {
+			if _, isSlice := p.At(0).Type().Underlying().(*types.Slice); isSlice {
+				arg = st.Obj(unwrap(body)).Fields["List"] // the walk takes a statement list
+			}
+		}
+		args := []AV{arg}
 		if fn.Signature.Recv() != nil {
-			args = []AV{Sym{Name: "r", NN: true}, body}
+			args = []AV{Sym{Name: "r", NN: true}, arg}
 		}
 		outs := in.Run(st, fn, args, nil)
 		r.account(in)
